@@ -1,8 +1,14 @@
 (* C16 — block and transaction wrappers always agree with the wire message they wrap.
    Only statements; every proof is `exact <lemma proved elsewhere>`.
    W : wire bundles what package wire / chainhash provide (serialisers, deserialisers, hashes,
-   DeserializeTxLoc); the hypotheses wire_canonical / wire_roundtrip / wire_txloc say that wire's
-   block (de)serialisers form a canonical prefix code and that DeserializeTxLoc measures it. *)
+   DeserializeTxLoc).  Hypotheses about wire (dependency, never about bchutil's own code):
+   - wire_size_canonical: if what Deserialize consumed has the SIZE of the parsed message's serialisation
+     then it IS that serialisation.  (Round 1 assumed wire_canonical - every accepted input is canonical -
+     which is false of bchd v0.20.0: script 0xef + 32 zero bytes + CashToken body.  That was a genuine defect
+     of NewBlockFromBytes, repaired by /repo 6ccc2c9; the weaker hypothesis is all the repaired code needs.)
+   - wire_roundtrip: Deserialize inverts Serialize and leaves trailing data.  Also false of bchd on messages
+     holding such a script (known finding, key prefix C16:wire-noncanonical:reparse); only C16_reparse_equiv uses it.
+   - wire_txloc: DeserializeTxLoc returns offset and length of every transaction's serialisation. *)
 From BU Require Import Lib.Bytes Block.Block Block.BlockProofs Block.BlockDistinct Block.BlockWire.
 
 (* For every constructor (NewBlock, NewBlockFromReader, NewBlockFromBytes, and NewBlockFromBlockAndBytes
@@ -12,7 +18,7 @@ From BU Require Import Lib.Bytes Block.Block Block.BlockProofs Block.BlockDistin
    for the block hash (bhid) across the whole history; wrapped transactions carry their index; the height
    is the last one set (initially BlockHeightUnknown). *)
 Theorem C16_wrapper_refines_message : forall (txc hdr H : Type) (W : wire txc hdr H),
-  wire_canonical txc hdr H W ->
+  wire_size_canonical txc hdr H W ->
   forall w m, constructed txc hdr H W w m ->
   forall ops, exists ids, run txc hdr H W w ops = ref_run txc hdr H W ids m (-1)%Z ops.
 Proof. exact wrapper_refines_message. Qed.
@@ -38,7 +44,7 @@ Print Assumptions C16_reference_never_panics.
 
 (* after any history, TxLoc() delimits exactly each transaction's serialisation inside Bytes() *)
 Theorem C16_txloc_delimits : forall (txc hdr H : Type) (W : wire txc hdr H),
-  wire_canonical txc hdr H W -> wire_txloc txc hdr H W ->
+  wire_size_canonical txc hdr H W -> wire_txloc txc hdr H W ->
   forall w m, constructed txc hdr H W w m ->
   forall ops, exists locs,
     last (run txc hdr H W w (ops ++ [OpTxLoc; OpBytes])) (OUnit H) = OBytesV H (ser_block txc hdr H W m) /\
@@ -53,7 +59,7 @@ Print Assumptions C16_txloc_delimits.
 (* a block re-parsed from its bytes has the same header and transaction contents, caches exactly those
    bytes, and is observationally equal to the original up to object identities, under every history *)
 Theorem C16_reparse_equiv : forall (txc hdr H : Type) (W : wire txc hdr H),
-  wire_canonical txc hdr H W -> wire_roundtrip txc hdr H W ->
+  wire_size_canonical txc hdr H W -> wire_roundtrip txc hdr H W ->
   forall w m, constructed txc hdr H W w m ->
   forall next, exists w2,
     new_block_from_bytes txc hdr H W next (ser_block txc hdr H W m) = Ok w2 /\
@@ -97,19 +103,24 @@ Proof. exact tx_wrapper_refines. Qed.
 Print Assumptions C16_tx_wrapper_refines.
 
 (* ---- review round 2: the refinement without a global hypothesis about package wire ----
-   [wire_canonical] is false of bchd v0.20.0 on one input family (output script = 0xef, 32 zero bytes, a
-   well-formed CashToken body: read as token data, written back without it), so the theorems above say
-   nothing about NewBlockFromBytes on such bytes.  [constructed_pw] asks, for NewBlockFromBytes only, that
-   THIS input's consumed bytes are the serialisation of the parsed message; NewBlock, NewBlockFromReader and
-   NewBlockFromBlockAndBytes need nothing from wire. *)
+   [constructed_pw] asks, for NewBlockFromBytes only, that the bytes it kept for THIS input (if it kept any)
+   are the serialisation of the parsed message; NewBlock, NewBlockFromReader and NewBlockFromBlockAndBytes
+   need nothing from wire.  (The harness evaluates the same per-input condition by calling wire alone.) *)
 Theorem C16_wrapper_refines_message_pointwise : forall (txc hdr H : Type) (W : wire txc hdr H),
   forall w m, constructed_pw txc hdr H W w m ->
   forall ops, exists ids, run txc hdr H W w ops = ref_run txc hdr H W ids m (-1)%Z ops.
 Proof. exact wrapper_refines_message_pw. Qed.
 Print Assumptions C16_wrapper_refines_message_pointwise.
 
-(* ... and that condition is necessary: Bytes() of a block made by NewBlockFromBytes is the consumed input,
-   so it is a fresh serialisation of the message exactly when the input was canonical *)
+(* the weaker hypothesis follows from round 1's, and makes every constructed block pointwise-constructed *)
+Theorem C16_hypotheses_ordered : forall (txc hdr H : Type) (W : wire txc hdr H),
+  (wire_canonical txc hdr H W -> wire_size_canonical txc hdr H W) /\
+  (wire_size_canonical txc hdr H W -> forall w m, constructed txc hdr H W w m -> constructed_pw txc hdr H W w m).
+Proof. exact (fun txc hdr H W => conj (canonical_size_canonical txc hdr H W) (fun Hc w m => constructed_pw_of_canonical txc hdr H W w m Hc)). Qed.
+Print Assumptions C16_hypotheses_ordered.
+
+(* ... and the per-input condition is necessary: if NewBlockFromBytes kept bytes, Bytes() returns them,
+   so it is a fresh serialisation of the message exactly when they are one *)
 Theorem C16_from_bytes_fresh_iff : forall (txc hdr H : Type) (W : wire txc hdr H) next bytes w,
   new_block_from_bytes txc hdr H W next bytes = Ok w ->
   b_ser txc hdr H (w_blk txc hdr H w) <> [] ->
@@ -119,16 +130,25 @@ Theorem C16_from_bytes_fresh_iff : forall (txc hdr H : Type) (W : wire txc hdr H
 Proof. exact from_bytes_fresh_iff. Qed.
 Print Assumptions C16_from_bytes_fresh_iff.
 
-(* the finding on the model side: with a wire that reads two encodings of one transaction content,
-   NewBlockFromBytes(bytes).Bytes() = bytes although the message serialises to something else *)
-Theorem C16_bytes_needs_canonical_wire_refuted :
+(* a wire that reads two encodings OF EQUAL LENGTH of one transaction content: the size test of 6ccc2c9
+   passes, NewBlockFromBytes(bytes).Bytes() = bytes although the message serialises to something else.
+   So wire_size_canonical cannot be dropped (no such input is known for bchd; the harness looks on every run) *)
+Theorem C16_bytes_needs_size_canonical_wire_refuted :
   exists (W : wire N N N) bytes w,
     new_block_from_bytes N N N W 0 bytes = Ok w /\
     run N N N W w [OpBytes] = [OBytesV N bytes] /\
     ser_block N N N W (b_msg N N N (w_blk N N N w)) <> bytes /\
-    ~ wire_canonical N N N W.
-Proof. exact bytes_needs_canonical_wire. Qed.
-Print Assumptions C16_bytes_needs_canonical_wire_refuted.
+    ~ wire_size_canonical N N N W.
+Proof. exact bytes_needs_size_canonical_wire. Qed.
+Print Assumptions C16_bytes_needs_size_canonical_wire_refuted.
+
+(* a wire that, like bchd, reads an encoding it writes back shorter (a skipped 0 byte before a transaction):
+   NewBlockFromBytes keeps nothing; Bytes(), TxLoc() and TxHash() are those of the message *)
+Example C16_noncanonical_input_example :
+  exists w, new_block_from_bytes N N N dropW 0 [7; 2; 0; 11; 12; 99] = Ok w /\
+    b_ser N N N (w_blk N N N w) = [] /\
+    run N N N dropW w [OpTxLoc; OpBytes; OpTxHash 0] = [OLocsV N [(2, 1); (3, 1)]%nat; OBytesV N [7; 2; 11; 12]; OHashV N 3 111].
+Proof. exact drop_example. Qed.
 
 (* TxLoc() returns exactly the positions (offset of transaction i = header + count + transactions before it),
    not merely slices with the right contents *)
@@ -139,14 +159,14 @@ Theorem C16_txloc_positions : forall (txc hdr H : Type) (W : wire txc hdr H),
 Proof. exact txloc_positions. Qed.
 Print Assumptions C16_txloc_positions.
 
-(* the three hypotheses about wire hold TOGETHER for a wire with real deserialisers (one byte per header,
+(* the hypotheses about wire hold TOGETHER for a wire with real deserialisers (one byte per header,
    count and transaction), and the from-bytes constructor is exercised with trailing data *)
 Theorem C16_wire_hypotheses_satisfiable :
-  wire_canonical N N N toyW /\ wire_roundtrip N N N toyW /\ wire_txloc N N N toyW /\
+  wire_canonical N N N toyW /\ wire_size_canonical N N N toyW /\ wire_roundtrip N N N toyW /\ wire_txloc N N N toyW /\
   exists w, new_block_from_bytes N N N toyW 0 [7; 2; 11; 12; 99] = Ok w /\
     run N N N toyW w [OpBytes; OpTxLoc; OpTx 1; OpTxHash 0; OpTx 2] =
       [OBytesV N [7; 2; 11; 12]; OLocsV N [(2, 1); (3, 1)]%nat; OTxV N (2, 1, 1%Z); OHashV N 4 111; OErr N E_RANGE].
-Proof. exact (conj toy_canonical (conj toy_roundtrip (conj toy_txloc_ok toy_from_bytes))). Qed.
+Proof. exact (conj toy_canonical (conj toy_size_canonical (conj toy_roundtrip (conj toy_txloc_ok toy_from_bytes)))). Qed.
 Print Assumptions C16_wire_hypotheses_satisfiable.
 
 (* the hypotheses are satisfiable and the statements non-vacuous: a toy wire (one byte per field) *)
